@@ -50,14 +50,14 @@ func C04(c *core.Ctx) {
 		for _, o := range asList(cs["overs"]) {
 			overs = append(overs, yamlOf(o))
 		}
-		docs := []namedDoc{{Name: wd+"/base.yaml", Content: base}}
+		docs := []namedDoc{{Name: wd + "/base.yaml", Content: base}}
 		for i, o := range overs {
 			docs = append(docs, namedDoc{Name: fmt.Sprintf(wd+"/over%d.yaml", i+1), Content: o})
 		}
 		multi := base + "\n---\n" + strings.Join(overs, "\n---\n") + "\n"
 		pa, ea := safeLoad(wd, nil, docs)
-		pb, eb := safeLoad(wd, nil, []namedDoc{{Name: wd+"/multi.yaml", Content: multi}})
-		pc, ec := safeLoad(wd, nil, []namedDoc{{Name: wd+"/target.yaml", Content: target}})
+		pb, eb := safeLoad(wd, nil, []namedDoc{{Name: wd + "/multi.yaml", Content: multi}})
+		pc, ec := safeLoad(wd, nil, []namedDoc{{Name: wd + "/target.yaml", Content: target}})
 		nontrivial := target != base
 		c.Eval(attr+"|"+base+"|"+strings.Join(overs, "|"), nontrivial)
 		attrs[attr]++
